@@ -234,7 +234,8 @@ var $internalize = (v, t, recv, seen, makeWrapper) => {
             return new t(0, v);
         case $kindFloat32:
         case $kindFloat64:
-            return parseFloat(v);
+            /* parseFloat goes through a string and would lose the sign of a negative zero. */
+            return typeof v === "number" ? v : parseFloat(v);
         case $kindArray:
             if (v === null || v === undefined) {
                 $throwRuntimeError("cannot internalize "+v+" as a "+t.string);
@@ -310,7 +311,7 @@ var $internalize = (v, t, recv, seen, makeWrapper) => {
                     var funcType = $funcType([$sliceType($emptyInterface)], [$jsObjectPtr], true);
                     return new funcType($internalize(v, funcType, makeWrapper));
                 case Number:
-                    return new $Float64(parseFloat(v));
+                    return new $Float64(typeof v === "number" ? v : parseFloat(v));
                 case String:
                     return new $String($internalize(v, $String, makeWrapper));
                 default:
@@ -321,6 +322,9 @@ var $internalize = (v, t, recv, seen, makeWrapper) => {
                     return new mapType($internalize(v, mapType, recv, seen, makeWrapper));
             }
         case $kindMap:
+            if (v === null || v === undefined) {
+                return t.zero();
+            }
             var m = new Map();
             seen.get(t).set(v, m);
             var keys = $keys(v);
@@ -331,6 +335,9 @@ var $internalize = (v, t, recv, seen, makeWrapper) => {
             return m;
         case $kindPtr:
             if (t.elem.kind === $kindStruct) {
+                if (v === null || v === undefined) {
+                    return t.nil;
+                }
                 return $internalize(v, t.elem, makeWrapper);
             }
         case $kindSlice:
@@ -349,10 +356,13 @@ var $internalize = (v, t, recv, seen, makeWrapper) => {
                 var h = v.charCodeAt(i);
                 if (0xD800 <= h && h <= 0xDBFF) {
                     var l = v.charCodeAt(i + 1);
-                    var c = (h - 0xD800) * 0x400 + l - 0xDC00 + 0x10000;
-                    s += $encodeRune(c);
-                    i += 2;
-                    continue;
+                    if (0xDC00 <= l && l <= 0xDFFF) {
+                        var c = (h - 0xD800) * 0x400 + l - 0xDC00 + 0x10000;
+                        s += $encodeRune(c);
+                        i += 2;
+                        continue;
+                    }
+                    /* An unpaired high surrogate becomes U+FFFD below, like an unpaired low one. */
                 }
                 s += $encodeRune(h);
                 i++;
